@@ -204,11 +204,42 @@ def rule_trees(ctx, repo):
     zero = [k for k, s in enumerate(body) if isinstance(s, ast.Assign) and norm(s.targets[0]) == 'hashes[0]']
     retk = [k for k, s in enumerate(body) if isinstance(s, ast.Return)]
     loopk = [k for k, s in enumerate(body) if isinstance(s, ast.For)]
-    zv = repo.fold(body[zero[0]].value, w.module) if zero else None
-    ok = len(zero) == 1 and zv == b'\x00' * 32 and loopk and retk and loopk[0] < zero[0] < retk[0]
-    r.check(ok, 'coinbase-zeroed', common.site_of(w, body[zero[0]]) if zero else w.site, 'entry 0 is replaced by 32 zero bytes before the tree is built',
-            'the coinbase entry is not unconditionally replaced by 32 zero bytes between collecting the hashes and building the tree')
-    r.check(any(norm(s) == 'return CBlock.build_merkle_tree_from_txids(hashes)' for s in body), 'witness-tree', w.site, 'same tree algorithm', 'witness tree is not built by build_merkle_tree_from_txids(hashes)')
+    ZERO32 = b'\x00' * 32
+    # the argument handed to the tree builder
+    tree_calls = [s.value for s in body if isinstance(s, ast.Return) and isinstance(s.value, ast.Call) and norm(s.value.func).endswith('build_merkle_tree_from_txids') and len(s.value.args) == 1]
+    arg = tree_calls[0].args[0] if len(tree_calls) == 1 else None
+    site0 = common.site_of(w, body[zero[0]]) if zero else w.site
+    if arg is not None and norm(arg) == 'hashes':
+        zv = repo.fold(body[zero[0]].value, w.module) if zero else None
+        if len(zero) == 1 and zv == ZERO32 and loopk and retk and loopk[0] < zero[0] < retk[0]:
+            r.ok('coinbase-zeroed', site0, 'entry 0 is replaced by 32 zero bytes before the tree is built')
+        elif not zero or (len(zero) == 1 and isinstance(zv, bytes)) or (len(zero) == 1 and loopk and zero[0] < loopk[0]):
+            r.violated('coinbase-zeroed', site0, 'the coinbase entry is not unconditionally replaced by 32 zero bytes between collecting the hashes and building the tree')
+        else:
+            r.undecided('coinbase-zeroed', site0, 'the replacement of entry 0 (`%s`) was not recognised' % '; '.join(norm(body[k]) for k in zero)[:100])
+    elif arg is not None:
+        # [Z, *hashes[1:]]  /  [Z] + hashes[1:]
+        first = rest = None
+        if isinstance(arg, ast.List) and len(arg.elts) == 2 and isinstance(arg.elts[1], ast.Starred):
+            first, rest = arg.elts[0], arg.elts[1].value
+        elif isinstance(arg, ast.BinOp) and isinstance(arg.op, ast.Add) and isinstance(arg.left, ast.List) and len(arg.left.elts) == 1:
+            first, rest = arg.left.elts[0], arg.right
+        zv = repo.fold(first, w.module) if first is not None else None
+        if first is not None and norm(rest) == 'hashes[1:]' and not zero:
+            r.check(zv == ZERO32, 'coinbase-zeroed', common.site_of(w, arg), 'the tree is built over 32 zero bytes followed by the other witness hashes',
+                    'the coinbase entry handed to the tree builder is `%s`, not 32 zero bytes' % norm(first)[:60], sure=isinstance(zv, bytes))
+        else:
+            r.undecided('coinbase-zeroed', common.site_of(w, arg), 'the list handed to the tree builder (`%s`) was not recognised' % norm(arg)[:80])
+    else:
+        r.undecided('coinbase-zeroed', w.site, 'no single call of build_merkle_tree_from_txids in a return statement')
+    if tree_calls:
+        r.ok('witness-tree', w.site, 'same tree algorithm')
+    else:
+        calls_ = [c_ for c_ in ast.walk(w.node) if isinstance(c_, ast.Call) and norm(c_.func).endswith('build_merkle_tree_from_txids')]
+        if calls_:
+            r.undecided('witness-tree', w.site, 'build_merkle_tree_from_txids is called, but not as the returned value')
+        else:
+            r.violated('witness-tree', w.site, 'witness tree is not built by build_merkle_tree_from_txids(hashes)')
     from ..rules import canon_text as _ct0, _canon_text_of
     raising = [s for s in body if isinstance(s, ast.If) and len(s.body) == 1 and isinstance(s.body[0], ast.Raise) and norm(s.body[0].exc) in ('NoWitnessData', 'NoWitnessData()')]
     if len(raising) != 1:
